@@ -789,3 +789,81 @@ Proof.
     exists h1, d1. rewrite Hw, <- app_assoc. replace (ni + 1 + y)%Z with (ni + (y + 1))%Z by lia. reflexivity.
 Qed.
 End ReadLoop.
+
+Lemma split_evs_gen drops dq di : forall acc,
+  (fix go (l : list oev) (acc : list (N * dropreason)) {struct l} : option (list (N * dropreason) * Z * Z) :=
+     match l with
+     | [OvQueue dq; OvInflight di] => Some (acc, dq, di)
+     | OvDropped t r :: l' => go l' (acc ++ [(t, r)])
+     | _ => None
+     end)
+    (map oev_of (map (fun dr : elem * dropreason => EvDropped (fst dr) (snd dr)) drops ++ [EvQueue dq; EvInflight di])) acc
+  = Some (acc ++ map (fun dr : elem * dropreason => (e_tag (fst dr), snd dr)) drops, dq, di).
+Proof.
+  induction drops as [|[d r] drops IH]; intros acc.
+  - simpl. rewrite app_nil_r. reflexivity.
+  - cbn [map app fst snd oev_of]. rewrite IH, <- app_assoc. reflexivity.
+Qed.
+
+Lemma split_evs_eq drops dq di :
+  split_evs (map oev_of (map (fun dr : elem * dropreason => EvDropped (fst dr) (snd dr)) drops ++ [EvQueue dq; EvInflight di]))
+  = Some (map (fun dr : elem * dropreason => (e_tag (fst dr), snd dr)) drops, dq, di).
+Proof. unfold split_evs. rewrite split_evs_gen. reflexivity. Qed.
+
+Lemma forallb_nz pids : forallb (fun p => negb (p =? 0)) pids = true -> Forall (fun p => p <> 0) pids.
+Proof.
+  induction pids as [|p r IH]; simpl; intros H; constructor.
+  - apply andb_true_iff in H. destruct H as [H _]. apply negb_true_iff, N.eqb_neq in H. auto.
+  - apply IH. apply andb_true_iff in H. tauto.
+Qed.
+
+Lemma read_sim q seen s now pids : Rx q seen s -> wf_step q seen (ORead now pids) = true ->
+  step_sim q seen s (ORead now pids).
+Proof.
+  intros (inf & que & H) Hwf. pose proof (R_len_inf _ _ _ _ _ H) as Hli. destruct H.
+  simpl in Hwf.
+  apply andb_true_iff in Hwf; destruct Hwf as [Hwf Hnif].
+  apply andb_true_iff in Hwf; destruct Hwf as [Hwf Hnd].
+  apply andb_true_iff in Hwf; destruct Hwf as [Hdr H].
+  apply forallb_nz in H.
+  pose proof (R_dr0 Hdr) as Hrem.
+  assert (Hcur : q_cur q = length inf) by lia.
+  unfold step_sim. simpl. unfold q_read. rewrite Hdr. simpl.
+  destruct (q_closed q) eqn:Hcl.
+  { simpl. split; [discriminate|]. rewrite R_fdr0, R_fcl0, Hdr, Hcl. simpl.
+    eexists; split; [reflexivity|]. exists inf, que. constructor; auto. }
+  destruct (q_cur q =? length (q_l q))%nat eqn:Hbl.
+  { apply Nat.eqb_eq in Hbl. rewrite R_l0, app_length in Hbl.
+    assert (que = []) by (destruct que; [reflexivity|simpl in Hbl; lia]). subst que.
+    simpl. split; [discriminate|]. rewrite R_fdr0, R_fcl0, Hdr, Hcl, R_aq0. simpl.
+    eexists; split; [reflexivity|]. exists inf, []. constructor; auto. }
+  apply Nat.eqb_neq in Hbl.
+  assert (Hque : que <> []).
+  { intros ->. rewrite R_l0, app_nil_r in Hbl. lia. }
+  rewrite R_l0, Hcur, <- R_lim0, <- R_v6, <- R_ifexp0.
+  destruct (read_loop_sim now s (Nat.min (length (inf ++ que)) (length pids)) que inf pids 0%Z 0%Z [] [] R_que0)
+    as (inf2 & ainf2 & que2 & rs2 & drops2 & x & y & Heq & Hx & Hy & Hf2 & Hq2 & Hss & Hle & Hrw); auto; [lia|].
+  rewrite Heq. cbn [fst snd app]. split; [discriminate|].
+  cbn [oout_of step_ok]. unfold read_ok.
+  rewrite R_fdr0, R_fcl0, Hdr, Hcl. cbn [negb orb].
+  destruct (a_q s) as [|a0 aq0] eqn:Haq.
+  { exfalso. rewrite R_aq0 in Haq. destruct que; [congruence|discriminate]. }
+  rewrite <- Haq. rewrite split_evs_eq.
+  destruct (Hrw (a_inf s) (a_handed s) (a_dropped s) 0%Z 0%Z) as (h1 & d1 & Hw).
+  rewrite R_aq0 at 1. rewrite Hw, !Z.eqb_refl. cbn [andb].
+  eexists; split; [reflexivity|].
+  exists (inf ++ inf2), que2.
+  pose proof (Forall2_length' _ _ _ Hf2) as Hl2.
+  constructor; cbn [upd q_set q_l q_cur q_drained q_closed q_max q_limit q_v5 q_ifexp
+                    a_inf a_rem a_q a_cq a_ci a_limit a_v5 a_drained a_closed a_max a_ifexp]; auto.
+  - apply Forall2_app; auto.
+  - rewrite !app_length. lia.
+  - rewrite !app_length. lia.
+  - rewrite R_fdr0. auto.
+  - eapply tags_ok_subseq; [exact R_tags0|].
+    rewrite R_aq0, !map_app, !map_ent_tag, <- app_assoc by assumption.
+    apply subseq_app; [apply subseq_refl|assumption].
+  - rewrite R_cq0, R_aq0, !app_length, !map_length. lia.
+  - rewrite R_ci0, !app_length. lia.
+  - rewrite R_aq0 in R_len0. rewrite !app_length, !map_length in *. lia.
+Qed.
